@@ -1,20 +1,17 @@
-(* C04, totality of the reader model: with non-zero frame and tick rates, a document without sequential time
-   containers is always read (no Python exception leaves process); the seq case is the recorded finding
-   seq-indefinite-sibling (Findings/C04.v). *)
+(* C04, totality of the reader model: no Python exception leaves process, in any context that has a syncbase and with non-zero
+   frame and tick rates; the document parameters the reader extracts are never zero; hence every <tt> tree is read
+   (read_tt always returns a document). *)
 From TT Require Import Base.Prelude Base.ImscXml Model.ImscTime Model.ImscStyles Model.ImscTiming Spec.TtmlTimingSpec Proofs.C04.TimeSyntax Proofs.C04.Interval.
 From Coq Require Import QArith Qminmax Lqa.
 Local Open Scope Z_scope.
 
-Lemma parse_no_zero_div tr fr s : 0 < tr -> (0 < fr)%Q -> parse_time_x (Some tr) (Some fr) s <> TZeroDiv.
+Lemma parse_no_zero_div tr fr s : (0 < tr)%Q -> (0 < fr)%Q -> parse_time_x (Some tr) (Some fr) s <> TZeroDiv.
 Proof.
   intros Htr Hfr. unfold parse_time_x, qdiv_res.
-  rewrite (Qeq_bool_pos_false fr Hfr).
-  assert (Hq : Qeq_bool (inject_Z tr) 0 = false).
-  { apply Qeq_bool_pos_false. unfold Qlt, inject_Z. simpl. lia. }
-  rewrite Hq. break_match; discriminate.
+  rewrite (Qeq_bool_pos_false fr Hfr), (Qeq_bool_pos_false tr Htr). break_match; discriminate.
 Qed.
 
-Definition rates_ok (ev : env) : Prop := 0 < e_tr ev /\ (0 < e_fr ev)%Q.
+Definition rates_ok (ev : env) : Prop := (0 < e_tr ev)%Q /\ (0 < e_fr ev)%Q.
 
 Lemma read_time_some ev raw : rates_ok ev -> read_time ev raw <> None.
 Proof.
@@ -23,37 +20,29 @@ Proof.
   destruct (parse_time_x (Some (e_tr ev)) (Some (e_fr ev)) s); try discriminate. contradiction.
 Qed.
 
-(* no element of the tree is a sequential time container *)
-Fixpoint no_seq (x : xml) : bool :=
-  match x with
-  | X _ attrs _ _ cs => read_par attrs && (fix all (l : list xml) : bool := match l with [] => true | c :: l' => no_seq c && all l' end) cs
-  end.
-
-(* the only exception that can leave process is then the ValueError of nested / referential styling (code 5, finding
-   style-invalid-value-abort) *)
 Definition total_at (ev : env) (x : xml) : Prop :=
-  forall pc, pc_par pc = true -> no_seq x = true -> forall e, process ev pc x = PErr e -> e = 5.
+  forall pc, implicit_begin pc <> None -> forall e, process ev pc x <> PErr e.
 
-Lemma loop_total ev k db pr lg l : Forall (total_at ev) l ->
-  (fix all (l : list xml) : bool := match l with [] => true | c :: l' => no_seq c && all l' end) l = true ->
-  forall iend kids anims pf nst e,
-    children_loop (process ev) (e_to_model ev) (e_valid ev) k true db pr lg l iend kids anims pf nst = LErr e -> e = 5.
+(* the children loop enters a child of a sequential container only while the end of the previous child is known *)
+Lemma loop_total ev k par db pr lg l : Forall (total_at ev) l ->
+  forall iend send kids anims pf nst e,
+    children_loop (process ev) (e_to_model ev) (e_valid ev) k par db pr lg l iend send kids anims pf nst <> LErr e.
 Proof.
-  induction 1 as [|c l Hc Hl IH]; intros Hall iend kids anims pf nst e; cbn [children_loop].
+  induction 1 as [|c l Hc Hl IH]; intros iend send kids anims pf nst e; cbn [children_loop].
   - discriminate.
-  - apply andb_true_iff in Hall as [Hc1 Hl1]. specialize (IH Hl1).
-    destruct (ekind_eqb k KRegion && is_style_elem c).
-    { destruct (merge_absent (e_valid ev) (collect (e_to_model ev) (x_attrs c) []) nst); [apply IH|]. intro H. inversion H. reflexivity. }
-    destruct (process ev (mkPctx true iend db pr lg (negb (ekind_eqb k KSet))) c) as [e'| |r] eqn:Ep.
-    + intro H. inversion H; subst e'. eapply Hc; [| exact Hc1 | exact Ep]. reflexivity.
-    + destruct (x_tail c); [destruct (k_is_mixed k && true)|]; apply IH.
-    + destruct (x_tail c); [destruct (k_is_mixed k && true)|]; apply IH.
+  - destruct (ekind_eqb k KRegion && is_style_elem c); [apply IH|].
+    destruct (negb par && match send with None => true | Some _ => false end) eqn:Ebr; [discriminate|].
+    destruct (process ev (mkPctx par send pr lg (negb (ekind_eqb k KSet))) c) as [e'| |r] eqn:Ep.
+    + exfalso. eapply Hc; [|exact Ep]. unfold implicit_begin. cbn [pc_par pc_seq_end].
+      destruct par; [discriminate|]. destruct send; [discriminate|discriminate].
+    + destruct (x_tail c); [destruct (k_is_mixed k && par)|]; apply IH.
+    + destruct (x_tail c); [destruct (k_is_mixed k && par)|]; apply IH.
 Qed.
 
-Theorem read_total_no_seq ev x : rates_ok ev -> total_at ev x.
+Theorem process_total ev x : rates_ok ev -> total_at ev x.
 Proof.
   intro Hr. induction x as [tag attrs txt tail cs IHcs] using xml_ind'.
-  intros pc Hpar Hns e H. cbn [no_seq] in Hns. apply andb_true_iff in Hns as [Hp Hall].
+  intros pc Hib e H.
   cbn [process] in H.
   destruct (classify tag attrs) as [k|]; [|discriminate].
   destruct (ekind_eqb k KRegion && match get_attr attrs A_id with None => true | Some _ => false end); [discriminate|].
@@ -63,10 +52,93 @@ Proof.
   destruct (read_time ev (get_attr attrs A_dur)); [|contradiction].
   pose proof (read_time_some ev (get_attr attrs A_end) Hr).
   destruct (read_time ev (get_attr attrs A_end)); [|contradiction].
-  unfold implicit_begin in H. rewrite Hpar in H. rewrite Hp in H.
-  match type of H with context [children_loop ?a ?tm ?vl ?b ?c ?d ?e0 ?f ?g ?h ?i ?j ?k0 ?n0] =>
-    pose proof (loop_total ev b d e0 f g IHcs Hall h i j k0 n0) as Hl;
-    destruct (children_loop a tm vl b c d e0 f g h i j k0 n0) as [e'|iF kF aF pF nF] end.
-  - inversion H; subst e'. eapply Hl. reflexivity.
-  - revert H. break_match; intro H; inversion H; reflexivity.
+  destruct (implicit_begin pc); [|contradiction].
+  match type of H with context [children_loop ?a ?tm ?vl ?b ?c ?d ?e0 ?f ?g ?h ?i ?j ?k0 ?n0 ?m0] =>
+    pose proof (loop_total ev b c d e0 f g IHcs h i j k0 n0 m0) as Hl;
+    destruct (children_loop a tm vl b c d e0 f g h i j k0 n0 m0) as [iF kF aF pF nF|e'] end.
+  - revert H. break_match; discriminate.
+  - eapply Hl. reflexivity.
 Qed.
+
+(* ---- the document parameters are never zero ------------------------------------------------------------------------------- *)
+Lemma pos_digits_pos s n : pos_digits s = Some n -> 0 < n.
+Proof.
+  unfold pos_digits. destruct (span_digits s) as [d r]. destruct d; [discriminate|]. destruct r; [|discriminate].
+  destruct (0 <? digits_val 0 (z :: d)) eqn:E; [|discriminate]. intro H. inversion H; subst. apply Z.ltb_lt in E. exact E.
+Qed.
+
+Lemma inject_pos n : 0 < n -> (0 < inject_Z n)%Q.
+Proof. intro H. unfold Qlt, inject_Z. simpl. lia. Qed.
+
+Lemma frame_rate_positive attrs : (0 < extract_frame_rate attrs)%Q.
+Proof.
+  unfold extract_frame_rate.
+  assert (Hfr : (0 < match frame_rate_attr attrs with Some n => inject_Z n | None => inject_Z 30 end)%Q).
+  { unfold frame_rate_attr. destruct (get_attr attrs A_frameRate) as [raw|]; [|reflexivity].
+    destruct (pos_digits raw) as [n|] eqn:E; [|reflexivity]. apply inject_pos. eapply pos_digits_pos; eassumption. }
+  set (fr := match frame_rate_attr attrs with Some n => inject_Z n | None => inject_Z 30 end) in *.
+  assert (H1 : (0 < fr * 1)%Q) by lra.
+  destruct (get_attr attrs A_frameRateMultiplier) as [raw|]; [|exact H1].
+  destruct (int_pair raw) as [[a b]|]; [|exact H1].
+  destruct ((0 <? a) && (0 <? b)) eqn:E; [|exact H1].
+  apply andb_true_iff in E as [Ea Eb].
+  assert (Hq : (0 < inject_Z a / inject_Z b)%Q).
+  { apply Qlt_shift_div_l; [apply inject_pos; lia|]. rewrite Qmult_0_l. apply inject_pos. lia. }
+  apply Qmult_lt_0_compat; assumption.
+Qed.
+
+Lemma tick_rate_positive attrs : (0 < extract_tick_rate attrs)%Q.
+Proof.
+  unfold extract_tick_rate.
+  destruct (match get_attr attrs A_tickRate with Some raw => pos_digits raw | None => None end) as [n|] eqn:E.
+  - destruct (get_attr attrs A_tickRate) as [raw|]; [|discriminate]. apply inject_pos. eapply pos_digits_pos; eassumption.
+  - destruct (frame_rate_attr attrs); [apply frame_rate_positive|reflexivity].
+Qed.
+
+(* ---- the document walk ------------------------------------------------------------------------------------------------------- *)
+Lemma read_layout_total ev preserve lang l : rates_ok ev -> forall acc e, read_layout ev preserve lang l acc <> inr e.
+Proof.
+  intro Hr. induction l as [|c l IH]; intros acc e; cbn [read_layout]; [discriminate|].
+  destruct (qname_eqb (x_tag c) T_region); [|apply IH].
+  destruct (process ev (mkPctx true (Some 0%Q) preserve lang true) c) as [e'| |r] eqn:Ep.
+  - exfalso. eapply (process_total ev c Hr); [|exact Ep]. discriminate.
+  - apply IH.
+  - destruct (r_node r); apply IH.
+Qed.
+
+Lemma read_head_total tr fr tm vl preserve lang l : (0 < tr)%Q -> (0 < fr)%Q -> forall h e, read_head tr fr tm vl preserve lang l h <> inr e.
+Proof.
+  intros Ht Hf. induction l as [|c l IH]; intros h e; cbn [read_head]; [discriminate|].
+  destruct (qname_eqb (x_tag c) T_layout).
+  - destruct (h_layout h); [apply IH|].
+    match goal with |- context [read_layout ?ev ?a ?b ?c0 ?d] =>
+      pose proof (read_layout_total ev a b c0 (conj Ht Hf) d) as Hl; destruct (read_layout ev a b c0 d) as [rs|e'] end.
+    + apply IH.
+    + exfalso. eapply Hl. reflexivity.
+  - destruct (qname_eqb (x_tag c) T_styling); [|apply IH].
+    destruct (h_styling h); [apply IH|].
+    destruct (read_styling tm vl (x_children c) (h_styles h) (h_initials h)). apply IH.
+Qed.
+
+Lemma read_tt_children_total tr fr tm vl preserve lang l : (0 < tr)%Q -> (0 < fr)%Q ->
+  forall hb hh h body, exists d, read_tt_children tr fr tm vl preserve lang l hb hh h body = DOk d.
+Proof.
+  intros Ht Hf. induction l as [|c l IH]; intros hb hh h body; cbn [read_tt_children]; [eexists; reflexivity|].
+  destruct (qname_eqb (x_tag c) T_body).
+  - destruct hb; [apply IH|].
+    match goal with |- context [process ?ev ?pc c] =>
+      pose proof (process_total ev c (conj Ht Hf) pc) as Hp; destruct (process ev pc c) as [e'| |r] eqn:Ep end.
+    + exfalso. eapply Hp; [|reflexivity]. discriminate.
+    + apply IH.
+    + apply IH.
+  - destruct (qname_eqb (x_tag c) T_head); [|apply IH].
+    destruct hh; [apply IH|].
+    match goal with |- context [read_head ?a ?b ?c0 ?d ?e0 ?f ?g ?i] =>
+      pose proof (read_head_total a b c0 d e0 f g Ht Hf i) as Hh; destruct (read_head a b c0 d e0 f g i) as [h'|e'] end.
+    + apply IH.
+    + exfalso. eapply Hh. reflexivity.
+Qed.
+
+(* every <tt> tree is read: whatever the attribute values, the element kinds, the time containers and the style graph *)
+Theorem read_tt_total tm vl x : exists d, read_tt tm vl x = DOk d.
+Proof. unfold read_tt. apply read_tt_children_total; [apply tick_rate_positive|apply frame_rate_positive]. Qed.
